@@ -180,9 +180,20 @@ def for_continue_to_while(body, log_rules):
     return body
 
 
+def enumerate_to_index(body, log_rules):
+    """R-enumerate: `for (I, X) in E.iter().enumerate() {` -> `for I in 0..E.len() { let X = &E[I];` (Verus has no spec for Enumerate);
+    same elements in the same order; E must not be modified in the loop body (Rust's borrow rules already guarantee that for the original)."""
+    pat = re.compile(r"for\s*\(\s*(\w+)\s*,\s*(\w+)\s*\)\s*in\s+([\w\.]+)\.iter\(\)\.enumerate\(\)\s*\{")
+    def sub(m):
+        log_rules.add("R-enumerate `for (i, x) in e.iter().enumerate()` -> `for i in 0..e.len() { let x = &e[i]; ..` (Verus has no spec for Enumerate)")
+        return "for %s in 0..%s.len() { let %s = &%s[%s];" % (m.group(1), m.group(3), m.group(2), m.group(3), m.group(1))
+    return pat.sub(sub, body)
+
+
 def apply_rules(body, profile, log_rules):
     ctr = [0]
     body = strip_cfg_debug(body, profile, log_rules)
+    body = enumerate_to_index(body, log_rules)
     body = for_continue_to_while(body, log_rules)
 
     def rm(args, semi):
